@@ -26,7 +26,7 @@ ConvSt(j) == [tabs |-> [t \in 1..4 |->
                             : q \in ToSet(j.t[t][1])},
                   tags |-> {[tag |-> At(g[1]), id |-> g[2]] : g \in ToSet(j.t[t][2])},
                   args |-> j.t[t][3]]],
-              inner |-> j.i, dead |-> ToSet(j.d)]
+              inner |-> j.i, dead |-> ToSet(j.d), calls |-> ToSet(j.c)]
 ConvOp(j) == IF j.name = "merge" THEN [j EXCEPT !.skip = ToSet(@)] ELSE j
 States == [i \in DOMAIN File.states |-> ConvSt(File.states[i])]
 OpsTab == [i \in DOMAIN File.ops |-> ConvOp(File.ops[i])]
